@@ -14,6 +14,7 @@ use std::sync::atomic::{AtomicUsize, Ordering};
 use std::sync::{Arc, Mutex};
 
 pub const KIND_LAYOUT: u8 = 1;
+pub const KIND_H12: u8 = 9;
 pub const KIND_STEP: u8 = 2;
 pub const KIND_RELALL: u8 = 3;
 pub const KIND_MON: u8 = 4;
@@ -39,6 +40,7 @@ pub struct Stats {
   pub divergences: u64,
   pub monitor_violations: u64,
   pub impl_panics: u64,
+  pub h12_layouts: u64,
   pub c06_pairs: u64,
   pub c08_obligation_steps: u64,
   pub nonwf_layouts: u64,
@@ -54,7 +56,7 @@ impl Stats {
     self.passthrough_steps += o.passthrough_steps; self.absorbing_states += o.absorbing_states;
     self.multi_active_states += o.multi_active_states; self.repeat_requests += o.repeat_requests;
     self.capped_explorations += o.capped_explorations; self.divergences += o.divergences;
-    self.monitor_violations += o.monitor_violations; self.impl_panics += o.impl_panics;
+    self.monitor_violations += o.monitor_violations; self.impl_panics += o.impl_panics; self.h12_layouts += o.h12_layouts;
     self.nonwf_layouts += o.nonwf_layouts; self.c06_pairs += o.c06_pairs; self.c08_obligation_steps += o.c08_obligation_steps;
     for (k, v) in &o.by_source { *self.by_source.entry(k.clone()).or_insert(0) += v; }
     for s in &o.samples { if self.samples.len() < 12 { self.samples.push(s.clone()); } }
@@ -180,6 +182,15 @@ pub fn explore(lean: &mut Lean, source: &str, layout: &Layout, alphabet: &[KeyCo
       return;
     }
   };
+
+  // the layouts people actually use (built-in, README, the repository's unit tests) must be inside the scope of the
+  // partial theorem of C08 (H1 and H2): the claim "all built-in, README and unit-test layouts satisfy H1 and H2" is checked
+  // here on every run instead of being asserted
+  if source.starts_with("builtin:") || source.starts_with("readme:") || source.starts_with("corpus:kt_") {
+    stats.h12_layouts += 1;
+    let expect = if layout.mappings.iter().all(|m| m.absorbing.is_empty()) { "in noabs" } else { "in abs" };
+    lean.expect(KIND_H12, 0, "H12".to_string(), expect.to_string());
+  }
 
   let mut nodes: Vec<Node> = Vec::new();
   let mut seen: HashMap<String, u32> = HashMap::new();
@@ -557,7 +568,7 @@ pub fn run(opts: &Opts) -> i32 {
     "states_with_two_or_more_active_mappings": stats.multi_active_states,
     "repeat_requests": stats.repeat_requests, "capped_explorations": stats.capped_explorations,
     "divergences": stats.divergences + ak_div, "monitor_violations": stats.monitor_violations,
-    "impl_panics": stats.impl_panics, "c06_pair_states_compared_with_fresh_mapper": stats.c06_pairs, "c08_steps_with_pending_obligation": stats.c08_obligation_steps, "non_wf_layouts_checked_for_panic": stats.nonwf_layouts,
+    "impl_panics": stats.impl_panics, "builtin_readme_unittest_explorations_checked_inside_H1_H2": stats.h12_layouts, "c06_pair_states_compared_with_fresh_mapper": stats.c06_pairs, "c08_steps_with_pending_obligation": stats.c08_obligation_steps, "non_wf_layouts_checked_for_panic": stats.nonwf_layouts,
     "transitions_by_source": stats.by_source, "max_held": max_held, "max_states_per_exploration": max_states,
     "samples": stats.samples, "findings": findings.len()
   });
